@@ -351,8 +351,8 @@ def uc_trace(real, res, K=1000, tol=3):
 
 # ------------------------------------------------------------------------------------------ start / shutdown ramp profiles
 RAMP_RELAX = ['min_down', 'min_run', 'start_flag_missing', 'off_output', 'cap', 'start_profile', 'shutdown_profile', 'off_without_shutdown_profile',
-              'shutdown_profile_must_end_off']
-RAMP_INVS = ['RunLongEnough', 'ProfilesFollowed', 'OffZero']
+              'shutdown_profile_must_end_off', 'start_profile_heat', 'shutdown_profile_heat', 'cap_heat', 'heat_share']
+RAMP_INVS = ['RunLongEnough', 'ProfilesFollowed', 'OffZero', 'HeatWithinShare']
 
 
 def fam_ramp_profiles(T=6, thorough=False):
@@ -377,6 +377,17 @@ def fam_ramp_profiles(T=6, thorough=False):
         cid += 1
         out.append(dict(id=cid, T=T, d=1, lo=3, hi=4, price=[-3, 1, -2, 2, -3, 1, -1, -2][:T], minrun=minrun, mindown=0, off0=0, run0=run0, startcost=1,
                         sr=[list(x) for x in sr], dr=[list(x) for x in dr], q=1))
+    for c in out:
+        c.update(heat=False, srh=[[0, 0] for _ in c['sr']], drh=[[0, 0] for _ in c['dr']])
+    # CHP: bounds of the virtual output AND of the heat in the profile steps (both heat profiles given, as the implementation requires)
+    Th = min(T, 4)
+    for (sr, srh), (dr, drh), minrun, run0 in itertools.product([([(1, 2)], [(0, 1)]), ([(1, 1), (2, 3)], [(0, 0), (1, 1)])],
+                                                               [([(1, 2)], [(0, 1)]), ([(2, 2), (1, 1)], [(1, 1), (0, 0)])], (0, 1), (0, 1)):
+        if not thorough and minrun == 1 and len(sr) + len(dr) > 3:
+            continue
+        cid += 1
+        out.append(dict(id=cid, T=Th, d=1, lo=2, hi=3, price=[-3, 1, -2, 2][:Th], minrun=minrun, mindown=0, off0=0 if run0 else 2, run0=run0, startcost=1,
+                        sr=[list(x) for x in sr], dr=[list(x) for x in dr], q=1, heat=True, srh=[list(x) for x in srh], drh=[list(x) for x in drh]))
     return out
 
 
@@ -385,27 +396,37 @@ class RampReal:
         self.c = c
         start = pd.Timestamp(CALENDARS['h'][0])
         self.tg = eao.assets.Timegrid(start, start + c['T'] * pd.Timedelta('1h'), freq='h')
-        kw = dict(name='PL', nodes=[eao.assets.Node('power')], min_cap=float(c['lo']), max_cap=float(c['hi']), price='p', start_costs=float(c['startcost']),
+        nodes = [eao.assets.Node('power')] + ([eao.assets.Node('heat')] if c['heat'] else [])
+        kw = dict(name='PL', nodes=nodes, min_cap=float(c['lo']), max_cap=float(c['hi']), price='p', start_costs=float(c['startcost']),
                   min_runtime=c['minrun'], min_downtime=c['mindown'], time_already_off=c['off0'], time_already_running=c['run0'],
                   last_dispatch=float((c['sr'][c['run0'] - 1][0] if 0 < c['run0'] <= len(c['sr']) else c['lo']) if c['run0'] > 0 else 0))
         if c['sr']:
             kw.update(start_ramp_lower_bounds=[float(x[0]) for x in c['sr']], start_ramp_upper_bounds=[float(x[1]) for x in c['sr']])
         if c['dr']:
             kw.update(shutdown_ramp_lower_bounds=[float(x[0]) for x in c['dr']], shutdown_ramp_upper_bounds=[float(x[1]) for x in c['dr']])
-        self.asset = eao.assets.Plant(**kw)
+        if c['heat']:
+            if c['sr']:
+                kw.update(start_ramp_lower_bounds_heat=[float(x[0]) for x in c['srh']], start_ramp_upper_bounds_heat=[float(x[1]) for x in c['srh']])
+            if c['dr']:
+                kw.update(shutdown_ramp_lower_bounds_heat=[float(x[0]) for x in c['drh']], shutdown_ramp_upper_bounds_heat=[float(x[1]) for x in c['drh']])
+            self.asset = eao.assets.CHPAsset(conversion_factor_power_heat=1., max_share_heat=1., **kw)
+        else:
+            self.asset = eao.assets.Plant(**kw)
         with quiet():
             self.op = self.asset.setup_optim_problem({'p': np.asarray(c['price'], float)}, self.tg)
         self.prob = Problem(self.op)
         m = self.op.mapping
         self.var = {}
-        for idx, vn, ts in zip(m.index.values, m['var_name'].values, m['time_step'].values):
-            self.var.setdefault((vn, int(ts)), int(idx))
+        for idx, vn, ts, nd in zip(m.index.values, m['var_name'].values, m['time_step'].values, m['node'].values):
+            self.var.setdefault((vn if nd != 'heat' else 'disp_heat', int(ts)), int(idx))
 
     def pins(self, steps, what=('on', 'start', 'p')):
         pins = {}
         for t, s_ in enumerate(steps):
             if 'p' in what:
                 pins[self.var[('disp', t)]] = float(s_['p'])
+                if self.c['heat']:
+                    pins[self.var[('disp_heat', t)]] = float(s_.get('h', 0))
             if 'on' in what and ('bool_on', t) in self.var:
                 pins[self.var[('bool_on', t)]] = 1.0 if s_['on'] else 0.0
             if 'start' in what and ('bool_start', t) in self.var:
@@ -441,7 +462,7 @@ def ramp_profiles(chk, tier, seed):
     negs, st2 = enumerate_ramp(cfgs if th else cfgs[seed % 2::2], relax=RAMP_RELAX, name='MCrampneg')
     chk.add_tlc(st2)
     for c in cfgs:
-        sel = dict(family='ramp_profiles', T=c['T'], start_profile=len(c['sr']), shutdown_profile=len(c['dr']), minrun=c['minrun'], mindown=c['mindown'], off0=c['off0'], run0=c['run0'])
+        sel = dict(family='ramp_profiles', heat=c['heat'], T=c['T'], start_profile=len(c['sr']), shutdown_profile=len(c['dr']), minrun=c['minrun'], mindown=c['mindown'], off0=c['off0'], run0=c['run0'])
         try:
             real = RampReal(c)
         except Exception as e:
